@@ -46,6 +46,7 @@ def prepare_of(scen):
 def execute(scen, policy="FIFO", schedule=None, expect=None, kill=None, keep_dir=False, on_step_extra=None, fault=None):
     from . import vworld as V
     V.NEXT_FAULT = tuple(fault) if fault else None
+    V.NEXT_FLAGS = {"coarse_mtime": bool(scen.get("coarse_mtime"))}
     from . import vxpm as X
     from .wscen import make_script
     import copy
@@ -107,7 +108,11 @@ def execute(scen, policy="FIFO", schedule=None, expect=None, kill=None, keep_dir
                 files = sorted(f.name[:8] for f in t.path.glob("*.token"))
             except Exception:  # noqa
                 files = ["?"]
-            toks.append({"pid": p.pid, "name": t.name, "available": t.available, "total": t.total, "files": files})
+            try:
+                info = int((t.path / "token.info").read_text())
+            except Exception:  # noqa
+                info = None
+            toks.append({"pid": p.pid, "name": t.name, "available": t.available, "total": t.total, "files": files, "info": info})
         result["tokens_end"] = toks
         result["jobs_end"] = [{"name": f"j{j.config.__xpm__.values.get('x', 0)}", "state": j.state.name if j.state else None,
                                "unsatisfied": j.unsatisfied} for j in world.jobs]
